@@ -79,6 +79,33 @@ def handle (op : String) (args : List String) (impl : String) : Option Verdict :
         | none => false)
       | _ => false
     return ⟨m, ok, s!"cell:{kind}:busy"⟩
+  | "midrun", [kind] => some <| Id.run do
+    -- the lock watched while the protocol is in its rounds: key generation and resharing hold it all the time
+    let some k := parseKind kind | return bad
+    if !k.exclusive then return bad
+    return ⟨"R=1", impl == "R=1", s!"midrun:{kind}"⟩
+  | "multi", [kinds, oc] => some <| Id.run do
+    -- one session of several processes, each on its own store; what Execute returns depends on the FIRST process only
+    -- (a retryable one whose coordinator stays silent is retried, nobody answers, the caller cancels)
+    let some ks := (kinds.splitOn "+").mapM parseKind | return bad
+    let some k0 := ks.head? | return bad
+    let some (o, ret) := (match oc with
+      | "refused" => some (Outcome.refused, "refused")
+      | "silent" => some (Outcome.never, if k0.exclusive then "err" else "ok")
+      | "gto" => some (Outcome.never, "err")
+      | "cancel" | "precancel" => some (Outcome.never, "ok")
+      | _ => none) | return bad
+    let per := multiFrom table ks o (fun _ _ => 1)
+    let some ds := per.mapM (·.head?) | return bad
+    let m := ret ++ ";" ++ "|".intercalate (ds.map showDelta)
+    let ok := match impl.splitOn ";" with
+      | [r, rest] => ["ok", "err", "refused"].contains r &&
+          (let parts := rest.splitOn "|"
+           parts.length == ks.length && parts.all fun p => match parseDelta p with
+             | some id => decide (Balanced id)
+             | none => false)
+      | _ => false
+    return ⟨m, ok, s!"multi:n={min ks.length 3}:{oc}"⟩
   | "handler", [which, oc] => some <| Id.run do
     let some k := (match which with
       | "keygen" => some Kind.ekeygen | "fkeygen" => some .fkeygen | "refresh" => some .eresharing | _ => none) | return bad
